@@ -229,6 +229,8 @@ class ObjectsDriver:
             mc = message.MethodCallMessage(c['path'], c['member'], interface=c['iface'] or None, destination=':1.2',
                                            signature=sig, body=body, expectReply=not c['noreply'],
                                            autoStart=(cid % 2 == 0))          # NO_AUTO_START on every other call
+            mc.serial = 40 + cid % 2            # every caller numbers its own messages: serials collide across callers
+            mc._marshal(False)
             pm = message.parseMessage(mc.rawMessage, [])
             pm.sender = sender
             self.calls.append((c, pm.serial, sender, arg))
@@ -287,9 +289,15 @@ class ObjectsDriver:
             pm = message.parseMessage(m.rawMessage, [])
             if pm._messageType not in (2, 3):
                 continue
-            ids = [i for i, (c, serial, sender, arg) in enumerate(self.calls, 1) if serial == pm.reply_serial]
+            ids = [i for i, (c, serial, sender, arg) in enumerate(self.calls, 1)
+                   if serial == pm.reply_serial and sender == pm.destination]
+            if not ids:
+                ids = [-i for i, (c, serial, sender, arg) in enumerate(self.calls, 1) if serial == pm.reply_serial][:1]
             if not ids:
                 stray.append(pm)
+                continue
+            if ids[0] < 0:                     # answers that serial, but is addressed to somebody else
+                replies[-ids[0]].append({'k': 'return' if pm._messageType == 2 else 'error', 'tag': '?misaddressed', 'forcall': ids[0]})
                 continue
             cid = ids[0]
             sender = self.calls[cid - 1][2]
